@@ -181,6 +181,7 @@ func c16Body(o c16Opts) func() {
 		var ths []*vrt.Thread
 		var hrErr error
 		var hrStart, hrDoneAt int64
+		hrCalled := false
 		oldClosed := false
 		trafficErrs, trafficOK := 0, 0
 		ths = append(ths, vrt.GoProc("admin", 2, func() {
@@ -192,6 +193,7 @@ func c16Body(o c16Opts) func() {
 			}
 			hrStart = vrt.VNow()
 			hrErr = w.oldL.HotRestart(epoch)
+			hrCalled = true
 			if hrErr != nil {
 				return
 			}
@@ -229,6 +231,9 @@ func c16Body(o c16Opts) func() {
 		}
 		if o.foreign {
 			ths = append(ths, vrt.GoProc("foreign-epoch", 2, func() {
+				// "foreign" is relative to a restart in progress: before HotRestart(epoch) was called an event of another
+				// epoch is simply a restart request of its own and the manager is right to follow it
+				vrt.Point("wait-restart", func() bool { return hrCalled })
 				vrt.AnyMoment()
 				// a restart event of another epoch on the first old session (e.g. a confused or second old server)
 				w.oldL.sessions.sessionMu.Lock()
@@ -244,8 +249,7 @@ func c16Body(o c16Opts) func() {
 			}))
 		}
 		if o.loseOne {
-			ths = append(ths, vrt.GoProc("lose-one", 2, func() {
-				vrt.AnyMoment()
+			ths = append(ths, vrt.GoLazy("lose-one", 2, func() {
 				w.oldL.sessions.sessionMu.Lock()
 				var first *Session
 				for _, s := range vrt.SortedKeys(w.oldL.sessions.data) {
@@ -422,10 +426,11 @@ func c17Body(o c17Opts) func() {
 			if o.loseInSetup {
 				vrt.Quiet(true)
 			}
-			ths = append(ths, vrt.GoProc("lose", 2, func() {
-				if !o.loseInSetup {
-					vrt.AnyMoment()
-				}
+			spawn := vrt.GoLazy
+			if o.loseInSetup {
+				spawn = vrt.GoProc
+			}
+			ths = append(ths, spawn("lose", 2, func() {
 				ss := w.serverSessions(w.oldL)
 				if len(ss) > 0 {
 					lostAt = vrt.VNow()
@@ -439,8 +444,7 @@ func c17Body(o c17Opts) func() {
 				ths = nil
 			}
 		case "server-down":
-			ths = append(ths, vrt.GoProc("server-down", 2, func() {
-				vrt.AnyMoment()
+			ths = append(ths, vrt.GoLazy("server-down", 2, func() {
 				lostAt = vrt.VNow()
 				if !o.hotRestart {
 					os.Remove(w.path) // (after a hot restart the path belongs to the new server)
@@ -474,11 +478,13 @@ func c17Body(o c17Opts) func() {
 			}))
 		}
 		if o.closeSM {
-			ths = append(ths, vrt.GoProc("sm-closer", 1, func() {
+			spawn := vrt.GoLazy
+			if o.closeAfter > 0 {
+				spawn = vrt.GoProc
+			}
+			ths = append(ths, spawn("sm-closer", 1, func() {
 				if o.closeAfter > 0 {
 					vrt.Sleep(o.closeAfter)
-				} else {
-					vrt.AnyMoment()
 				}
 				w.sm.Close()
 			}))
